@@ -3,6 +3,7 @@ use std::cell::Cell;
 
 pub mod common;
 pub mod c03;
+pub mod c04;
 
 thread_local! {
     static EXPECT_PANIC: Cell<bool> = const { Cell::new(false) };
@@ -31,6 +32,7 @@ pub fn guarded<T>(f: impl FnOnce() -> T) -> Result<T, String> {
 pub fn run(id: &str, tier: Tier) -> i32 {
     match id {
         "C03" => c03::run(tier),
+        "C04" => c04::run(tier),
         _ => {
             eprintln!("MACHINERY: no check for {id}");
             2
@@ -43,6 +45,7 @@ pub fn replay(id: &str, file: &serde_json::Value) -> i32 {
     let case = &file["case"];
     let f: fn(&serde_json::Value) -> Result<(), Violation> = match id {
         "C03" => c03::replay,
+        "C04" => c04::replay,
         _ => {
             eprintln!("MACHINERY: no replay for {id}");
             return 2;
